@@ -15,14 +15,18 @@ vars == <<k, l, s>>
 Done == 99999
 RLines == Rec[k].in.lines
 ErrAt == Rec[k].in.err_at
+ErrKind == IF "err_kind" \in DOMAIN Rec[k].in THEN Rec[k].in.err_kind ELSE "Other"
 
 Init == k \in 1..Len(Rec) /\ l = 1 /\ s = InitScan
 
 \* the scripted reader fails when asked for line ErrAt; before that it delivers the lines
-Line    == l # Done /\ s.st = "reading" /\ l <= Len(RLines) /\ (ErrAt = 0 \/ l < ErrAt)
+\* a hard error is reported when the reader is asked for line ErrAt (possibly after half of it);
+\* ErrorKind::Interrupted is retried by the standard reading loop and changes nothing
+Hard    == ErrAt # 0 /\ ErrKind # "Interrupted"
+Line    == l # Done /\ s.st = "reading" /\ l <= Len(RLines) /\ (~Hard \/ l < ErrAt)
            /\ s' = StepLine(s, RLines[l]) /\ l' = l + 1 /\ UNCHANGED k
-IoError == l # Done /\ s.st = "reading" /\ ErrAt # 0 /\ l = ErrAt /\ s' = StepIoError(s) /\ l' = l + 1 /\ UNCHANGED k
-Eof     == l # Done /\ s.st = "reading" /\ ErrAt = 0 /\ l = Len(RLines) + 1 /\ s' = StepEof(s) /\ l' = l + 1 /\ UNCHANGED k
+IoError == l # Done /\ s.st = "reading" /\ Hard /\ l = ErrAt /\ s' = StepIoErrorKind(s, ErrKind) /\ l' = l + 1 /\ UNCHANGED k
+Eof     == l # Done /\ s.st = "reading" /\ ~Hard /\ l = Len(RLines) + 1 /\ s' = StepEof(s) /\ l' = l + 1 /\ UNCHANGED k
 Step == Line \/ IoError \/ Eof
 
 RECURSIVE AllBlocksJudged(_, _)
@@ -33,7 +37,7 @@ Terminal ==
     /\ s.st \in {"failed", "done"}
     /\ ~JudgedInput \/
        /\ Rec[k].out = (IF s.st = "failed" THEN [err |-> "T"] ELSE [ok |-> s.recs])
-       /\ (ErrAt = 0 => (IF s.st = "failed" THEN <<"err">> ELSE <<"ok", s.recs>>) = ReadRef(RLines))
+       /\ (~Hard => (IF s.st = "failed" THEN <<"err">> ELSE <<"ok", s.recs>>) = ReadRef(RLines))
 Reject == /\ l # Done /\ ~ENABLED Step /\ ~Terminal
           /\ PrintT(<<"MISMATCH", k, "base">>)
           /\ l' = Done /\ UNCHANGED <<k, s>>
